@@ -117,7 +117,10 @@ RawExpect(s) ==
   \* a non-200 unary Connect response is an error whatever its body holds (C06 decides which); the body is still
   \* peer-controlled data read under the same limit (C09: Bounded)
   IF NonOK(s) \/ DoErr(s) THEN [out |-> <<>>, res |-> {"transport"}]
-  ELSE IF s.limit > 0 /\ Avail(s) > s.limit THEN [out |-> <<>>, res |-> {"limit", "transport"} \cup (CtxTails \cap {s.tail})]
+  \* over the limit: the rest of the body is drained before the failure is reported -- if the context ends meanwhile the
+  \* call fails as the context says (C15), like an over-limit envelope whose payload is being skipped
+  ELSE IF s.limit > 0 /\ Avail(s) > s.limit
+       THEN [out |-> <<>>, res |-> IF s.tail \in CtxTails THEN {s.tail} ELSE {"limit", "transport"}]
   ELSE IF s.tail \in CtxTails THEN [out |-> <<>>, res |-> {s.tail}]
   ELSE IF s.tail # "eof" THEN [out |-> <<>>, res |-> {"transport"}]
   ELSE IF Avail(s) < f.len THEN [out |-> <<>>, res |-> {"dontcare"}]
